@@ -6,7 +6,17 @@ from . import C20 as RC20
 from .common import info
 
 
+def _extra_c14(ctx):
+    # the split spelling 'to y' links to the title word 'toy' only through the grams of its first part: no word may be
+    # passed over by the gram generator, and every posting counts
+    from . import r_trigram as RT
+    RT.grams_from_whole_words(ctx, "R14.i")
+    RT.shared_generator(ctx, "R14.i")
+    RT.every_posting_counted(ctx, "R14.i")
+
+
 def run(ctx):
+    _extra_c14(ctx)
     gates = RG._gates(ctx, "R14.a")
     if gates is not None:
         RG.gate_presence(ctx, "R14.a", gates, ["jaccard", "length", "damlev"])
